@@ -65,7 +65,12 @@ func crossProcessDeterminism(cfg *propCfg, b *build, tier string, seed uint64, m
 				infra("determinism pass: case %s missing at GOMAXPROCS=%d", k, procs[i])
 			}
 			if o[1] != res[0][k][1] {
-				infra("simulator not deterministic: case %s has schedule hash %x at GOMAXPROCS=%d and %x at GOMAXPROCS=%d", k, res[0][k][1], procs[0], o[1], procs[i])
+				// The schedule differs with the number of processors: two goroutines of the
+				// code under test ran at the same time between two yield points and their
+				// order mattered (an asynchronous hand-off inside the tree that the simulator
+				// does not own; the pinned tree has none, its pipes are rendezvous). Counted
+				// and reported; `verif selftest` insists on zero for the tree it is run on.
+				stats["schedule_hash_mismatch_across_gomaxprocs"]++
 			}
 			if o[0] != res[0][k][0] {
 				return &violation{Kind: "nondeterministic-output", Site: "cross-process",
@@ -73,6 +78,7 @@ func crossProcessDeterminism(cfg *propCfg, b *build, tier string, seed uint64, m
 			}
 		}
 	}
+	stats["schedule_hash_mismatch_across_gomaxprocs"] += 0
 	stats["determinism_cases_compared"] = int64(len(keys))
 	stats["determinism_processes"] = int64(len(procs))
 	return nil, stats
@@ -111,7 +117,7 @@ func selftest(args []string) int {
 		os.MkdirAll(sub, 0o755)
 		b := buildLib(cfg, "quick", sub)
 		v, st := crossProcessDeterminism(cfg, b, "quick", 7, 400)
-		report("libsim determinism "+id+" (GOMAXPROCS 1/4/16/2)", v == nil, fmt.Sprintf("%d cases x %d processes", st["determinism_cases_compared"], st["determinism_processes"]))
+		report("libsim determinism "+id+" (GOMAXPROCS 1/4/16/2)", v == nil && st["schedule_hash_mismatch_across_gomaxprocs"] == 0, fmt.Sprintf("%d cases x %d processes, %d schedule mismatches", st["determinism_cases_compared"], st["determinism_processes"], st["schedule_hash_mismatch_across_gomaxprocs"]))
 	}
 	{
 		cfg := cfgs["C13"]
@@ -119,7 +125,7 @@ func selftest(args []string) int {
 		os.MkdirAll(sub, 0o755)
 		b := buildLib(cfg, "quick", sub)
 		v, st := crossProcessDeterminism(cfg, b, "quick", 7, 150)
-		report("libsim determinism C13 -race (GOMAXPROCS 1/4/16/2)", v == nil, fmt.Sprintf("%d cases x %d processes", st["determinism_cases_compared"], st["determinism_processes"]))
+		report("libsim determinism C13 -race (GOMAXPROCS 1/4/16/2)", v == nil && st["schedule_hash_mismatch_across_gomaxprocs"] == 0, fmt.Sprintf("%d cases x %d processes, %d schedule mismatches", st["determinism_cases_compared"], st["determinism_processes"], st["schedule_hash_mismatch_across_gomaxprocs"]))
 	}
 	// 3. determinism of clisim: the same plan in 30 fresh processes
 	{
